@@ -202,6 +202,13 @@ def run(chk):
     chk.ob('C03-O', 'parse_message installs the list returned by parse_segments', ok, '', pm.loc,
            key='C03-O|parse_message|children')
 
+    from . import c08
+    ps_ = ix.func('parser.parse_segments')
+    cur_, stk_ = c08.find_cursor_and_stack(ps_)
+    if cur_ is None or stk_ is None:
+        raise AnalysisError('parse_segments: group cursor / reference stack not recognised')
+    c08.cursor_sources(chk, ps_, cur_, stk_, 'C03-O')
+
     # ---- U
     pf = ix.func('parser.parse_field')
     ok = False
